@@ -1,5 +1,1144 @@
-//! stub
+//! IFT client totality: (font, subset definition, IFT/IFTX tables, patch bytes,
+//! applied map, decoder) tuples. Starts from font-test-data's IFT builders and
+//! from small raw-byte generators (format-2 maps with hostile URI templates /
+//! string ids / child indices; table-keyed and glyph-keyed patches), mutates
+//! table and patch bytes, and drives `intersecting_patches`,
+//! `PatchGroup::select_next_patches`, `.uris()`, `apply_next_patches[_with_decoder]`
+//! with the pass-through decoder, a fault-injecting decoder and the real C
+//! brotli decoder.
+
+use crate::drive::variant_name;
+use crate::ttgen::{simple_glyph, TtFont};
 use crate::Items;
-use vf_core::Ctx;
-pub fn sec_ift(_ctx: &mut Ctx, _items: &mut Items) {}
-pub fn run_item(_ctx: &mut Ctx, _i: usize, _seed: u64) {}
+use font_test_data::ift as td;
+use incremental_font_transfer::{
+    patch_group::{PatchGroup, UriStatus},
+    patchmap::{intersecting_patches, DesignSpace, FeatureSet, PatchFormat, SubsetDefinition},
+};
+use read_fonts::{
+    collections::{IntSet, RangeSet},
+    types::{Fixed, Tag},
+    FontRef,
+};
+use serde_json::json;
+use shared_brotli_patch_decoder::{decode_error::DecodeError, BuiltInBrotliDecoder, NoopBrotliDecoder, SharedBrotliDecoder};
+use std::cell::{Cell, RefCell};
+use std::collections::{BTreeMap, BTreeSet, HashMap};
+use vf_core::gen::{build_sfnt, split_tables};
+use vf_core::{fnv64, Ctx, Digest, Rng};
+
+pub const MAX_DECODE: usize = 16 << 20;
+
+// ---------------------------------------------------------------- brotli "stored" encoder
+
+struct BitW {
+    out: Vec<u8>,
+    cur: u32,
+    n: u32,
+}
+impl BitW {
+    fn put(&mut self, v: u32, bits: u32) {
+        for i in 0..bits {
+            self.cur |= ((v >> i) & 1) << self.n;
+            self.n += 1;
+            if self.n == 8 {
+                self.out.push(self.cur as u8);
+                self.cur = 0;
+                self.n = 0;
+            }
+        }
+    }
+    fn align(&mut self) {
+        if self.n > 0 {
+            self.out.push(self.cur as u8);
+            self.cur = 0;
+            self.n = 0;
+        }
+    }
+}
+
+/// A valid brotli stream made of uncompressed meta-blocks (RFC 7932 §9.2).
+pub fn brotli_stored(data: &[u8]) -> Vec<u8> {
+    let mut w = BitW { out: vec![], cur: 0, n: 0 };
+    w.put(0, 1); // WBITS = 16
+    for chunk in data.chunks(65536) {
+        w.put(0, 1); // ISLAST = 0
+        w.put(0, 2); // MNIBBLES = 4
+        w.put(chunk.len() as u32 - 1, 16);
+        w.put(1, 1); // ISUNCOMPRESSED
+        w.align();
+        w.out.extend_from_slice(chunk);
+    }
+    w.put(1, 1); // ISLAST
+    w.put(1, 1); // ISLASTEMPTY
+    w.align();
+    w.out
+}
+
+// ---------------------------------------------------------------- decoders
+
+/// The real decoder, refusing (and noting) requests above 16 MiB.
+struct Capped<'a> {
+    over: &'a Cell<u64>,
+    calls: &'a Cell<u64>,
+}
+impl SharedBrotliDecoder for Capped<'_> {
+    fn decode(&self, encoded: &[u8], dict: Option<&[u8]>, max: usize) -> Result<Vec<u8>, DecodeError> {
+        self.calls.set(self.calls.get() + 1);
+        if max > MAX_DECODE {
+            self.over.set(self.over.get() + 1);
+            return Err(DecodeError::MaxSizeExceeded);
+        }
+        BuiltInBrotliDecoder.decode(encoded, dict, max)
+    }
+}
+
+/// Fault injection at the public decoder trait.
+struct Faulty<'a> {
+    mode: u8,
+    fail_on: u64,
+    calls: &'a Cell<u64>,
+    injected: &'a Cell<u64>,
+    junk: Vec<u8>,
+}
+impl SharedBrotliDecoder for Faulty<'_> {
+    fn decode(&self, encoded: &[u8], _dict: Option<&[u8]>, max: usize) -> Result<Vec<u8>, DecodeError> {
+        let k = self.calls.get();
+        self.calls.set(k + 1);
+        let max = max.min(MAX_DECODE);
+        let pass = || if encoded.len() <= max { Ok(encoded.to_vec()) } else { Err(DecodeError::MaxSizeExceeded) };
+        if k < self.fail_on {
+            return pass();
+        }
+        self.injected.set(self.injected.get() + 1);
+        match self.mode {
+            0 => Err(DecodeError::InitFailure),
+            1 => Err(DecodeError::InvalidStream),
+            2 => Err(DecodeError::InvalidDictionary),
+            3 => Err(DecodeError::MaxSizeExceeded),
+            4 => Err(DecodeError::ExcessInputData),
+            5 => Err(DecodeError::IoError(std::io::ErrorKind::Other)),
+            6 => Ok(vec![]),
+            7 => Ok(vec![0xFF; max.min(4096)]),
+            8 => Ok(vec![0; max.min(1 << 16) + 7]), // longer than allowed
+            9 => Ok(encoded.iter().take(encoded.len() / 2).copied().collect()),
+            10 => Ok(self.junk.clone()),
+            11 => Ok(vec![1, 2, 3, 4, 5]),
+            _ => pass(),
+        }
+    }
+}
+
+pub const N_FAULT_MODES: u8 = 12;
+
+// ---------------------------------------------------------------- table / patch generators
+
+fn cid(b: &[u8]) -> [u8; 16] {
+    let mut c = [0u8; 16];
+    if b.len() >= 21 {
+        c.copy_from_slice(&b[5..21]);
+    }
+    c
+}
+
+const TEMPLATES: [&[u8]; 34] = [
+    b"",
+    b"{id}",
+    b"{id64}",
+    b"foo/{id}",
+    b"//foo.bar/{id}",
+    b"{d1}{d2}{d3}{d4}",
+    b"{d1}/{d2}/{d3}/{d4}/{id}/{id64}",
+    b"//foo/{id",
+    b"{",
+    b"}",
+    b"{}",
+    b"{idx}",
+    b"{d5}",
+    b"{d0}",
+    b"{+id}",
+    b"{id,id64}",
+    b"{id:3}",
+    b"{id*}",
+    b"%",
+    b"%4",
+    b"%zz",
+    b"%41%2f",
+    b"\xc9\xa4{id}",
+    b"\xff\xfe{id}",
+    b"\0{id}\0",
+    b"{I}",
+    b"{iD}",
+    b" {id} ",
+    b"{id64",
+    b"{{id}}",
+    b"{id}}",
+    b"a{id}b{id}c{id64}d{id64}",
+    b"{id6}",
+    b"{d}",
+];
+
+fn template(rng: &mut Rng) -> Vec<u8> {
+    match rng.usize(12) {
+        0 => vec![b'a'; *rng.pick(&[255usize, 256, 4096, 65535])],
+        1 => {
+            let mut v = vec![];
+            for _ in 0..*rng.pick(&[10usize, 100, 1000, 8000]) {
+                v.extend_from_slice(*rng.pick(&[&b"{id}"[..], b"{id64}", b"{d1}", b"%41", b"/"]));
+            }
+            v
+        }
+        2 if rng.chance(1, 3) => { let k = rng.usize(24); rng.bytes(k) }
+        _ => {
+            if rng.bool() {
+                rng.pick(&TEMPLATES[1..7]).to_vec()
+            } else {
+                rng.pick(&TEMPLATES).to_vec()
+            }
+        }
+    }
+}
+
+fn u24(v: &mut Vec<u8>, x: u32) {
+    v.extend_from_slice(&x.to_be_bytes()[1..]);
+}
+
+/// A format-2 patch map from a small grammar (mostly well-formed, hostile values).
+pub fn gen_format2(rng: &mut Rng, compat: u32, shape: &mut String) -> Vec<u8> {
+    let n = *rng.pick(&[0usize, 1, 2, 3, 3, 6, 6, 12, 40, 300]);
+    let string_ids = rng.chance(1, 3);
+    let tpl = template(rng);
+    shape.push_str(&format!("fmt2(n={},strids={},tpl={});", n, string_ids, String::from_utf8_lossy(&tpl[..tpl.len().min(24)]).replace('|', "/")));
+    let mut entries = vec![];
+    let mut strings = vec![];
+    // the more entries, the rarer a hostile value per entry (one bad entry fails the whole map)
+    let hd = n as u64 + 3;
+    for i in 0..n {
+        let mut flags = 0u8;
+        let mut body = vec![];
+        if rng.chance(1, 3) {
+            flags |= 1;
+            let fc = *rng.pick(&[0u8, 1, 2, 5]);
+            body.push(fc);
+            for _ in 0..fc {
+                body.extend_from_slice(*rng.pick(&[b"liga", b"smcp", b"rlig", b"\0\0\0\0", b"zzzz"]));
+            }
+            let dc = *rng.pick(&[0u16, 1, 2, 3]);
+            body.extend_from_slice(&dc.to_be_bytes());
+            for _ in 0..dc {
+                body.extend_from_slice(*rng.pick(&[b"wght", b"wdth", b"opsz"]));
+                let mut a = *rng.pick(&[0u32, 0x8000, 0x10000, 0x00C80000, 0x80000000, 0x7FFFFFFF, 0xFFFFFFFF, 0x02BC0000]);
+                let mut b = *rng.pick(&[0u32, 0x8000, 0x10000, 0x00C80000, 0x80000000, 0x7FFFFFFF, 0xFFFFFFFF, 0x02BC0000]);
+                if (a as i32) > (b as i32) && !rng.chance(1, hd) {
+                    std::mem::swap(&mut a, &mut b);
+                }
+                body.extend_from_slice(&a.to_be_bytes());
+                body.extend_from_slice(&b.to_be_bytes());
+            }
+        }
+        if rng.chance(1, 3) && (i > 0 || rng.chance(1, hd)) {
+            flags |= 2;
+            let cc = *rng.pick(&[0u8, 1, 2, 4, 0x81, 0x80, 0xFF]);
+            body.push(cc);
+            for _ in 0..(cc & 0x7F).min(6) {
+                let rnd = rng.usize(n.max(1));
+                let prior = rng.usize(i.max(1));
+                let target = if rng.chance(1, hd) { *rng.pick(&[i, i + 1, n, 0xFFFFFF, rnd]) } else { *rng.pick(&[0usize, prior, prior, i.saturating_sub(1)]) };
+                u24(&mut body, target as u32);
+            }
+        }
+        if rng.chance(1, 2) {
+            flags |= 4;
+            if string_ids {
+                let l = if rng.chance(1, hd) { *rng.pick(&[100u16, 0xFFFF]) } else { *rng.pick(&[0u16, 1, 3, 4]) };
+                body.extend_from_slice(&l.to_be_bytes());
+                let k = (l as usize).min(8);
+                strings.extend(rng.bytes(k));
+            } else {
+                let d = if rng.chance(1, hd) { *rng.pick(&[-1i32, 0x7FFFFF, -0x800000, 0x400000, -2]) } else { *rng.pick(&[0i32, 1, 2, 5, 4]) };
+                u24(&mut body, d as u32 & 0xFFFFFF);
+            }
+        }
+        if rng.chance(1, 4) {
+            flags |= 8;
+            body.push(if rng.chance(1, hd) { *rng.pick(&[0u8, 4, 255]) } else { *rng.pick(&[1u8, 2, 3]) });
+        }
+        match rng.usize(5) {
+            0 => {}
+            1 | 2 => {
+                flags |= 0x10;
+                sparse_set(&mut body, rng, hd);
+            }
+            3 => {
+                flags |= 0x20;
+                body.extend_from_slice(&(*rng.pick(&[0u16, 5, 0xFFFF, 0x8000])).to_be_bytes());
+                sparse_set(&mut body, rng, hd);
+            }
+            _ => {
+                flags |= 0x30;
+                u24(&mut body, *rng.pick(&[0u32, 5, 0x10FFFF, 0x110000, 0xFFFFFF]));
+                sparse_set(&mut body, rng, hd);
+            }
+        }
+        if rng.chance(1, 8) {
+            flags |= 0x40;
+        }
+        if rng.chance(1, 30) {
+            flags |= 0x80;
+        }
+        entries.push(flags);
+        entries.extend(body);
+    }
+    let mut t = vec![2u8, 0, 0, 0, 0];
+    for i in 0..4u32 {
+        t.extend_from_slice(&(compat + i).to_be_bytes());
+    }
+    t.push(if rng.chance(1, 20) { *rng.pick(&[0u8, 4, 255]) } else { *rng.pick(&[1u8, 2, 3, 3]) });
+    let cnt = if rng.chance(1, 8) { *rng.pick(&[0u32, n as u32 + 1, 0xFFFFFF, n as u32 * 2]) } else { n as u32 };
+    u24(&mut t, cnt);
+    let entries_off_pos = t.len();
+    t.extend_from_slice(&[0; 4]);
+    let str_off_pos = t.len();
+    t.extend_from_slice(&[0; 4]);
+    t.extend_from_slice(&(tpl.len().min(65535) as u16).to_be_bytes());
+    t.extend_from_slice(&tpl[..tpl.len().min(65535)]);
+    let eo = t.len() as u32;
+    t[entries_off_pos..entries_off_pos + 4].copy_from_slice(&eo.to_be_bytes());
+    t.extend(entries);
+    if string_ids {
+        let so = t.len() as u32;
+        t[str_off_pos..str_off_pos + 4].copy_from_slice(&so.to_be_bytes());
+        t.extend(strings);
+    }
+    t
+}
+
+fn sparse_set(body: &mut Vec<u8>, rng: &mut Rng, hd: u64) {
+    let k = if rng.chance(1, hd) { *rng.pick(&[2usize, 3, 4]) } else { *rng.pick(&[0usize, 0, 1, 5]) };
+    match k {
+        0 => body.extend_from_slice(&[0b00001101, 0b00000011, 0b00110001]),
+        5 => body.extend_from_slice(&[0b00001110, 0xFF, 0xFF, 0xFF, 0xFF]), // bf 8, height 3... a dense low range
+        1 => body.push(0), // height 0, branch factor 2: empty set
+        2 => {
+            // deep tree header with few bytes following
+            body.push(*rng.pick(&[0b01111111u8, 0b01111100, 0b00011111, 0xFF, 0x80]));
+            { let k = rng.usize(6); body.extend(rng.bytes(k)); }
+        }
+        3 => {
+            // all-ones nodes: large sets
+            body.push(*rng.pick(&[0b00010111u8, 0b00001110, 0b00010001]));
+            body.extend(vec![0xFF; rng.usize(40)]);
+        }
+        _ => {
+            { let k = 1 + rng.usize(5); body.extend(rng.bytes(k)); }
+        }
+    }
+}
+
+/// GlyphPatches payload (uncompressed) from a grammar.
+pub fn gen_glyph_patches(rng: &mut Rng, wide: bool, shape: &mut String) -> Vec<u8> {
+    let gc = *rng.pick(&[0usize, 1, 2, 5, 15, 16, 100]);
+    let tags_all: [&[u8; 4]; 7] = [b"glyf", b"gvar", b"CFF ", b"CFF2", b"loca", b"zzzz", b"IFT "];
+    let tc = *rng.pick(&[0usize, 1, 1, 2, 3]);
+    shape.push_str(&format!("glyphpatches(g={},t={},wide={});", gc, tc, wide));
+    let mut gids: Vec<u32> = (0..gc).map(|_| { let r = rng.below(20) as u32; *rng.pick(&[0u32, 1, 2, 7, 8, 13, 14, 15, 16, 0xFFFF, r]) }).collect();
+    if !rng.chance(1, 5) {
+        gids.sort_unstable();
+        if rng.chance(3, 4) {
+            gids.dedup();
+        }
+    }
+    let gc = gids.len();
+    let mut tags: Vec<&[u8; 4]> = (0..tc).map(|_| *rng.pick(&tags_all)).collect();
+    if !rng.chance(1, 5) {
+        tags.sort();
+        tags.dedup();
+    }
+    let tc = tags.len();
+    let mut p = vec![];
+    let declared_gc = if rng.chance(1, 10) { *rng.pick(&[0u32, gc as u32 + 1, 0xFFFFFFFF, 0x7FFFFFFF]) } else { gc as u32 };
+    p.extend_from_slice(&declared_gc.to_be_bytes());
+    p.push(if rng.chance(1, 10) { *rng.pick(&[0u8, 255, tc as u8 + 1]) } else { tc as u8 });
+    for g in &gids {
+        if wide {
+            u24(&mut p, *g & 0xFFFFFF);
+        } else {
+            p.extend_from_slice(&(*g as u16).to_be_bytes());
+        }
+    }
+    for t in &tags {
+        p.extend_from_slice(*t);
+    }
+    let n_off = gc * tc + 1;
+    let data_start = p.len() + 4 * n_off;
+    let mut off = data_start as u32;
+    let mut blobs = vec![];
+    for _ in 0..n_off {
+        let o = match rng.usize(14) {
+            0 => 0,
+            1 => 0xFFFFFFFF,
+            2 => off.wrapping_sub(3),
+            _ => off,
+        };
+        p.extend_from_slice(&o.to_be_bytes());
+        let l = *rng.pick(&[0usize, 1, 2, 3, 4, 6, 11, 64]);
+        blobs.extend(rng.bytes(l));
+        off += l as u32;
+    }
+    p.extend(blobs);
+    p
+}
+
+/// A glyph-keyed patch: header + stream (already "compressed" by `enc`).
+pub fn glyph_keyed_patch(compat: &[u8; 16], wide: bool, payload: &[u8], max_len: u32, enc: impl Fn(&[u8]) -> Vec<u8>) -> Vec<u8> {
+    let mut p = b"ifgk".to_vec();
+    p.extend_from_slice(&[0; 4]);
+    p.push(wide as u8);
+    p.extend_from_slice(compat);
+    p.extend_from_slice(&max_len.to_be_bytes());
+    p.extend(enc(payload));
+    p
+}
+
+/// A table-keyed patch from a grammar.
+pub fn gen_table_keyed(rng: &mut Rng, compat: &[u8; 16], enc: &dyn Fn(&[u8]) -> Vec<u8>, shape: &mut String) -> Vec<u8> {
+    let n = *rng.pick(&[0usize, 1, 2, 3, 5, 20]);
+    shape.push_str(&format!("tablekeyed(n={});", n));
+    let tags: [&[u8; 4]; 12] = [b"tab1", b"tab2", b"tab3", b"glyf", b"loca", b"head", b"maxp", b"IFT ", b"IFTX", b"zzzz", b"cmap", b"CFF "];
+    let mut patches: Vec<Vec<u8>> = vec![];
+    let mut chosen: Vec<&[u8; 4]> = (0..n).map(|_| *rng.pick(&tags)).collect();
+    if !rng.chance(1, 4) {
+        chosen.sort();
+        chosen.dedup();
+    }
+    for t in &chosen {
+        let mut tp = t.to_vec();
+        let flags = *rng.pick(&[0u8, 1, 1, 2, 3, 0x80]);
+        tp.push(flags);
+        let payload: Vec<u8> = match rng.usize(5) {
+            0 => vec![],
+            1 => b"hijkabcdeflmnohijkabcdeflmno\n".to_vec(),
+            2 => { let k = *rng.pick(&[1usize, 12, 54, 600]); rng.bytes(k) }
+            3 => {
+                // a plausible replacement IFT table (format 2, no entries)
+                let mut s = String::new();
+                { let c = rng.u32(); gen_format2(rng, c, &mut s) }
+            }
+            _ => vec![0u8; *rng.pick(&[4usize, 100, 70_000])],
+        };
+        let ml = match rng.usize(8) {
+            0 => 0,
+            1 => payload.len().saturating_sub(1) as u32,
+            2 => 0xFFFFFFFF,
+            3 => MAX_DECODE as u32,
+            4 => MAX_DECODE as u32 + 1,
+            _ => payload.len() as u32 + rng.below(3) as u32,
+        };
+        tp.extend_from_slice(&ml.to_be_bytes());
+        if flags & 2 == 0 || rng.bool() {
+            tp.extend(enc(&payload));
+        }
+        patches.push(tp);
+    }
+    let mut p = b"iftk".to_vec();
+    p.extend_from_slice(&[0; 4]);
+    p.extend_from_slice(compat);
+    let cnt = if rng.chance(1, 10) { *rng.pick(&[0u16, patches.len() as u16 + 1, 0xFFFF]) } else { patches.len() as u16 };
+    p.extend_from_slice(&cnt.to_be_bytes());
+    let mut off = (p.len() + 4 * (patches.len() + 1)) as u32;
+    for tp in &patches {
+        let o = if rng.chance(1, 20) { *rng.pick(&[0u32, 0xFFFFFFFF, off.wrapping_sub(1), off + 1]) } else { off };
+        p.extend_from_slice(&o.to_be_bytes());
+        off += tp.len() as u32;
+    }
+    p.extend_from_slice(&off.to_be_bytes());
+    for tp in patches {
+        p.extend(tp);
+    }
+    p
+}
+
+fn mutate_bytes(b: &mut Vec<u8>, rng: &mut Rng, desc: &mut String) {
+    if b.is_empty() {
+        return;
+    }
+    for _ in 0..1 + rng.usize(3) {
+        let pos = if rng.chance(2, 3) { rng.usize(b.len().min(64)) } else { rng.usize(b.len()) };
+        match rng.usize(8) {
+            0 => b[pos] ^= 1 << rng.usize(8),
+            1 => b[pos] = *rng.pick(&[0u8, 1, 0x7F, 0x80, 0xFF]),
+            2 => {
+                let v = *rng.pick(&vf_core::gen::INTERESTING16);
+                if pos + 2 <= b.len() {
+                    b[pos..pos + 2].copy_from_slice(&v.to_be_bytes());
+                }
+            }
+            3 => {
+                let v = *rng.pick(&vf_core::gen::INTERESTING32);
+                if pos + 4 <= b.len() {
+                    b[pos..pos + 4].copy_from_slice(&v.to_be_bytes());
+                }
+            }
+            4 => {
+                b.truncate(pos);
+                if b.is_empty() {
+                    desc.push_str("trunc0;");
+                    return;
+                }
+            }
+            5 => {
+                let k = 1 + rng.usize(8);
+                let extra = rng.bytes(k);
+                b.extend(extra);
+            }
+            6 => {
+                if pos + 2 <= b.len() {
+                    let cur = u16::from_be_bytes([b[pos], b[pos + 1]]);
+                    let v = *rng.pick(&[cur.wrapping_add(1), cur.wrapping_sub(1), cur.wrapping_mul(2), b.len() as u16]);
+                    b[pos..pos + 2].copy_from_slice(&v.to_be_bytes());
+                }
+            }
+            _ => {
+                let k = (1 + rng.usize(8)).min(b.len() - pos);
+                for x in &mut b[pos..pos + k] {
+                    *x = 0xFF;
+                }
+            }
+        }
+        desc.push_str(&format!("m@{};", pos));
+    }
+}
+
+// ---------------------------------------------------------------- tuples
+
+pub struct Tuple {
+    pub font: Vec<u8>,
+    pub def: SubsetDefinition,
+    pub compat_a: [u8; 16],
+    pub compat_b: [u8; 16],
+    pub patch_seed: u64,
+    pub applied_mask: u64,
+    pub missing_mask: u64,
+    pub shape: String,
+}
+
+fn base_tables(kind: usize, n_glyphs: Option<usize>, rng: &mut Rng) -> (Vec<([u8; 4], Vec<u8>)>, u32) {
+    match kind {
+        0 => (
+            vec![(*b"tab1", b"abcdef\n".to_vec()), (*b"tab2", b"foobar\n".to_vec()), (*b"tab4", b"abcdef\n".to_vec()), (*b"tab5", b"foobar\n".to_vec())],
+            0x00010000,
+        ),
+        1 | 2 => {
+            // glyf/loca font with 15 glyphs (like the IFT crate's own test font); kind 2 = long loca + gvar
+            let mut f = TtFont::default();
+            f.long_loca = kind == 2;
+            for g in 0..n_glyphs.unwrap_or(15) {
+                if matches!(g, 0 | 1 | 8) {
+                    f.glyphs.push(simple_glyph(&[vec![(0, 0, true), (10, 0, true), (10, 10 + g as i16, true)]], &[]));
+                } else {
+                    f.glyphs.push(vec![]);
+                }
+            }
+            let mut t = split_tables(&f.build());
+            if kind == 2 || rng.bool() {
+                let gv = match rng.usize(5) {
+                    0 => td::short_gvar_with_shared_tuples(),
+                    1 => td::long_gvar_with_shared_tuples(),
+                    2 => td::short_gvar_with_no_shared_tuples(),
+                    3 => td::short_gvar_near_maximum_offset_size(),
+                    _ => td::out_of_order_gvar_with_shared_tuples(),
+                };
+                t.push((*b"gvar", gv.as_slice().to_vec()));
+            }
+            (t, 0x00010000)
+        }
+        3 => (split_tables(td::CFF_FONT), 0x4F54544F),
+        4 => (split_tables(td::CFF2_FONT), 0x4F54544F),
+        _ => (split_tables(td::IFT_BASE), 0x00010000),
+    }
+}
+
+fn builder_table(i: usize) -> Vec<u8> {
+    let b = match i % 13 {
+        0 => td::simple_format1(),
+        1 => td::simple_format1_with_one_charstrings_offset(),
+        2 => td::simple_format1_with_two_charstrings_offsets(),
+        3 => td::u16_entries_format1(),
+        4 => td::feature_map_format1(),
+        5 => td::codepoints_only_format2(),
+        6 => td::format2_with_one_charstrings_offset(),
+        7 => td::format2_with_two_charstrings_offset(),
+        8 => td::features_and_design_space_format2(),
+        9 => td::child_indices_format2(),
+        10 => td::custom_ids_format2(),
+        11 => td::string_ids_format2(),
+        _ => td::table_keyed_format2(),
+    };
+    b.as_slice().to_vec()
+}
+
+fn gen_subset(rng: &mut Rng, shape: &mut String) -> SubsetDefinition {
+    let mut cps: IntSet<u32> = IntSet::empty();
+    let k = *rng.pick(&[0usize, 1, 1, 2, 3, 4, 4, 5, 6, 7, 7, 7]);
+    match k {
+        0 => {}
+        7 => {
+            cps.insert_range(0x41..=0x5A);
+            cps.insert(5);
+            cps.insert(0x20);
+        }
+        1 => {
+            cps.insert(5);
+        }
+        2 => {
+            cps.insert_range(0..=0x10FFFF);
+        }
+        3 => {
+            cps = IntSet::all();
+        }
+        4 => {
+            for _ in 0..rng.usize(40) {
+                cps.insert(rng.below(200) as u32);
+            }
+        }
+        5 => {
+            cps.insert_range(0..=30);
+            cps.invert();
+        }
+        _ => {
+            cps.extend_unsorted([0u32, 5, 17, 22, 50, 100, 117, u32::MAX, 0x10FFFF, 0x110000]);
+        }
+    }
+    let feats = match rng.usize(4) {
+        0 => FeatureSet::All,
+        1 => FeatureSet::Set(BTreeSet::new()),
+        2 => FeatureSet::Set([Tag::new(b"liga"), Tag::new(b"smcp")].into_iter().collect()),
+        _ => FeatureSet::Set([Tag::new(b"rlig"), Tag::new(b"\0\0\0\0"), Tag::new(b"zzzz")].into_iter().collect()),
+    };
+    let ds = match rng.usize(5) {
+        0 => DesignSpace::All,
+        1 => DesignSpace::Ranges(HashMap::new()),
+        2 => {
+            let mut m: HashMap<Tag, RangeSet<Fixed>> = HashMap::new();
+            let mut r = RangeSet::default();
+            r.insert(Fixed::from_f64(100.0)..=Fixed::from_f64(900.0));
+            m.insert(Tag::new(b"wght"), r);
+            DesignSpace::Ranges(m)
+        }
+        3 => {
+            let mut m: HashMap<Tag, RangeSet<Fixed>> = HashMap::new();
+            let mut r = RangeSet::default();
+            r.insert(Fixed::MIN..=Fixed::MAX);
+            r.insert(Fixed::from_bits(0)..=Fixed::from_bits(0));
+            m.insert(Tag::new(b"wdth"), r.clone());
+            m.insert(Tag::new(b"wght"), r);
+            DesignSpace::Ranges(m)
+        }
+        _ => {
+            let mut m: HashMap<Tag, RangeSet<Fixed>> = HashMap::new();
+            let mut r = RangeSet::default();
+            r.insert(Fixed::from_bits(i32::MAX - 1)..=Fixed::MAX);
+            r.insert(Fixed::MIN..=Fixed::from_bits(i32::MIN + 1));
+            r.insert(Fixed::from_f64(0.5)..=Fixed::from_f64(0.25)); // reversed: ignored
+            m.insert(Tag::new(b"wdth"), r);
+            DesignSpace::Ranges(m)
+        }
+    };
+    shape.push_str(&format!("def(cp={},feat={},ds={});", k, matches!(feats, FeatureSet::All) as u8, matches!(ds, DesignSpace::All) as u8));
+    SubsetDefinition::new(cps, feats, ds)
+}
+
+pub fn gen_tuple(i: usize, seed: u64) -> Tuple {
+    let mut rng = Rng::derive(seed, "ift", i as u64);
+    let mut shape = String::new();
+    let mut kind = rng.usize(6);
+    let fmt1_hint = rng.chance(5, 13);
+    if fmt1_hint && rng.chance(3, 4) {
+        kind = 1 + rng.usize(2);
+    }
+    shape.push_str(&format!("font(kind={});", kind));
+    // IFT table
+    let mut ift = if rng.chance(1, 3) {
+        gen_format2(&mut rng, 1, &mut shape)
+    } else {
+        let b = if kind == 3 {
+            *rng.pick(&[1usize, 6, 2, 7, 12])
+        } else if kind == 4 {
+            *rng.pick(&[2usize, 7, 12, 5])
+        } else if fmt1_hint {
+            rng.usize(5)
+        } else {
+            5 + rng.usize(8)
+        };
+        shape.push_str(&format!("ift=builder{};", b));
+        builder_table(b)
+    };
+    if matches!(kind, 1 | 2) && ift.first() == Some(&2) && ift.len() > 21 && rng.bool() {
+        // glyph keyed default encoding for the glyf fonts
+        ift[21] = 3;
+    }
+    if rng.chance(2, 5) {
+        shape.push_str("ift-mutated:");
+        mutate_bytes(&mut ift, &mut rng, &mut shape);
+    }
+    // format 1 maps must agree with maxp.numGlyphs: size the glyf fonts accordingly (most of the time)
+    let want_glyphs = if ift.first() == Some(&1) && ift.len() > 28 && !rng.chance(1, 6) {
+        let g = u32::from_be_bytes([0, ift[25], ift[26], ift[27]]) as usize;
+        if (1..=2000).contains(&g) {
+            Some(g)
+        } else {
+            None
+        }
+    } else {
+        None
+    };
+    let (mut tables, version) = base_tables(kind, want_glyphs, &mut rng);
+    tables.retain(|(t, _)| t != b"IFT " && t != b"IFTX");
+    if !rng.chance(1, 12) {
+        tables.push((*b"IFT ", ift.clone()));
+    }
+    let mut iftx = vec![];
+    if rng.chance(1, 2) {
+        iftx = if rng.chance(1, 3) {
+            gen_format2(&mut rng, 6, &mut shape)
+        } else {
+            let b = if want_glyphs.is_some() { rng.usize(13) } else { 5 + rng.usize(8) };
+            shape.push_str(&format!("iftx=builder{};", b));
+            let mut t = builder_table(b);
+            // give it another compat id (unless the "same id" misuse is wanted)
+            if t.len() > 9 && !rng.chance(1, 8) {
+                t[8] = 6;
+            }
+            t
+        };
+        if rng.chance(1, 4) {
+            shape.push_str("iftx-mutated:");
+            mutate_bytes(&mut iftx, &mut rng, &mut shape);
+        }
+        tables.push((*b"IFTX", iftx.clone()));
+    }
+    let mut font = build_sfnt(version, &tables);
+    if rng.chance(1, 4) {
+        // hostile base font: the patch application reads loca/glyf/gvar/CFF/maxp/head of the font itself
+        let dir = vf_core::gen::parse_dir(&font, 0);
+        let mut p = vf_core::gen::Patcher::new();
+        let focus = *rng.pick(&[b"loca", b"glyf", b"gvar", b"maxp", b"head", b"CFF ", b"CFF2", b"loca", b"gvar"]);
+        vf_core::gen::mutate_random(&mut font, &dir, &mut rng, &mut p, Some(focus));
+        shape.push_str(&format!("font-mutated[{}]{}", String::from_utf8_lossy(focus), p.describe()));
+    }
+    let def = gen_subset(&mut rng, &mut shape);
+
+    let compat_a = cid(&ift);
+    let compat_b = cid(&iftx);
+    Tuple { font, def, compat_a, compat_b, patch_seed: rng.u64(), applied_mask: if rng.chance(1, 5) { rng.u64() & rng.u64() } else { 0 }, missing_mask: if rng.chance(1, 8) { rng.u64() & rng.u64() } else { 0 }, shape }
+}
+
+/// What a URI's map entry says about the patch it expects.
+#[derive(Clone, Copy, PartialEq)]
+pub enum Want {
+    TableKeyed,
+    GlyphKeyed,
+    Any,
+}
+
+/// One patch in two flavours: (stream as-is for the pass-through / fault decoders,
+/// real brotli "stored" stream for the C decoder).
+pub fn make_patch(rng: &mut Rng, want: Want, compat: [u8; 16], shape: &mut String) -> (Vec<u8>, Vec<u8>) {
+    let mut r2 = rng.clone();
+    let k = match want {
+        Want::TableKeyed => *rng.pick(&[0usize, 0, 1, 6, 6, 7, 9]),
+        Want::GlyphKeyed => *rng.pick(&[2usize, 3, 4, 5]),
+        Want::Any => rng.usize(10),
+    };
+    let (mut a, mut b): (Vec<u8>, Vec<u8>) = match k {
+        0 => {
+            let mut p = td::table_keyed_patch().as_slice().to_vec();
+            p[8..24].copy_from_slice(&compat);
+            shape.push_str("p=td-table-keyed;");
+            (p.clone(), p)
+        }
+        1 => {
+            let mut p = td::noop_table_keyed_patch().as_slice().to_vec();
+            p[8..24].copy_from_slice(&compat);
+            (p.clone(), p)
+        }
+        2 | 3 => {
+            let payload = match rng.usize(6) {
+                0 => td::noop_glyf_glyph_patches(),
+                1 => td::glyf_u16_glyph_patches(),
+                2 => td::glyf_u16_glyph_patches_2(),
+                3 => td::glyf_and_gvar_u16_glyph_patches(),
+                4 => td::cff_u16_glyph_patches(),
+                _ => td::glyf_u24_glyph_patches(),
+            };
+            let wide = payload.as_slice() == td::glyf_u24_glyph_patches().as_slice();
+            let mut pl = payload.as_slice().to_vec();
+            if rng.chance(1, 3) {
+                shape.push_str("payload-mutated:");
+                mutate_bytes(&mut pl, rng, shape);
+            }
+            let ml = if rng.chance(1, 8) { *rng.pick(&[0u32, (pl.len() as u32).wrapping_sub(1), 0xFFFFFFFF, MAX_DECODE as u32 + 1]) } else { pl.len() as u32 };
+            shape.push_str("p=td-glyph-keyed;");
+            (glyph_keyed_patch(&compat, wide, &pl, ml, |d| d.to_vec()), glyph_keyed_patch(&compat, wide, &pl, ml, brotli_stored))
+        }
+        4 | 5 => {
+            let wide = rng.chance(1, 3);
+            let mut s2 = String::new();
+            let pl = gen_glyph_patches(rng, wide, &mut s2);
+            shape.push_str(&s2);
+            let ml = if rng.chance(1, 8) { *rng.pick(&[0u32, 0xFFFFFFFF, 1 << 24]) } else { pl.len() as u32 };
+            (glyph_keyed_patch(&compat, wide, &pl, ml, |d| d.to_vec()), glyph_keyed_patch(&compat, wide, &pl, ml, brotli_stored))
+        }
+        6 | 7 => {
+            let mut s2 = String::new();
+            let a = gen_table_keyed(rng, &compat, &|d| d.to_vec(), &mut s2);
+            let b = gen_table_keyed(&mut r2, &compat, &|d| brotli_stored(d), &mut String::new());
+            shape.push_str(&s2);
+            (a, b)
+        }
+        8 => {
+            let k = *rng.pick(&[0usize, 1, 4, 30, 200]);
+            let p = rng.bytes(k);
+            (p.clone(), p)
+        }
+        _ => {
+            // the real compressed streams of the test patch, corrupted in the stream area
+            let mut p = td::table_keyed_patch().as_slice().to_vec();
+            p[8..24].copy_from_slice(&compat);
+            let n = p.len();
+            for _ in 0..1 + rng.usize(3) {
+                let pos = 51 + rng.usize(n - 51);
+                p[pos] ^= 1 << rng.usize(8);
+            }
+            shape.push_str("p=td-table-keyed-stream-corrupted;");
+            (p.clone(), p)
+        }
+    };
+    if rng.chance(1, 5) {
+        shape.push_str("patch-mutated:");
+        let mut r3 = rng.clone();
+        mutate_bytes(&mut a, rng, shape);
+        mutate_bytes(&mut b, &mut r3, &mut String::new());
+    }
+    (a, b)
+}
+
+// ---------------------------------------------------------------- running
+
+#[derive(Default)]
+struct IStats {
+    calls: u64,
+    ok: u64,
+    err: u64,
+    labels: Vec<(&'static str, String)>,
+    counts: BTreeMap<String, u64>,
+    opened: bool,
+}
+impl IStats {
+    fn res<T, E: std::fmt::Debug>(&mut self, kind: &'static str, r: &Result<T, E>) {
+        self.calls += 1;
+        match r {
+            Ok(_) => self.ok += 1,
+            Err(e) => {
+                self.err += 1;
+                let mut l = variant_name(e);
+                let full = format!("{:?}", e);
+                if let Some(p) = full.find("MalformedData(\"") {
+                    let msg: String = full[p + 15..].chars().take_while(|c| *c != '"').take(60).collect();
+                    l = format!("{}:{}", l, msg);
+                }
+                self.count(&format!("{}:{}", kind, l), 1);
+                if self.labels.len() < 40 && !self.labels.iter().any(|(k, v)| *k == kind && *v == l) {
+                    self.labels.push((kind, l));
+                }
+            }
+        }
+    }
+    fn count(&mut self, k: &str, n: u64) {
+        *self.counts.entry(k.to_string()).or_default() += n;
+    }
+}
+
+fn patch_map(t: &Tuple, uris: &[String], wants: &HashMap<String, (Want, [u8; 16])>, br: bool, salt: u64, st: &mut IStats) -> HashMap<String, UriStatus> {
+    let mut m = HashMap::new();
+    for (k, u) in uris.iter().enumerate() {
+        let bit = 1u64 << (k % 64);
+        if t.missing_mask & bit != 0 {
+            continue;
+        }
+        if t.applied_mask & bit != 0 {
+            m.insert(u.clone(), UriStatus::Applied);
+            continue;
+        }
+        let mut rng = Rng::derive(t.patch_seed ^ salt, "patch", k as u64);
+        let (want, compat) = match wants.get(u) {
+            Some((w, c)) if rng.chance(7, 8) => (*w, *c),
+            _ => (Want::Any, *rng.pick(&[t.compat_a, t.compat_b, [9u8; 16]])),
+        };
+        let mut s = String::new();
+        let (raw, brs) = make_patch(&mut rng, want, compat, &mut s);
+        st.count("ift_patches_generated", 1);
+        m.insert(u.clone(), UriStatus::Pending(if br { brs } else { raw }));
+    }
+    m
+}
+
+/// 0 = pass-through, 1 = real C brotli (capped), 2.. = fault injection, 100 = `apply_next_patches`
+fn run_apply(t: &Tuple, decoder: u8, salt: u64, st: &mut IStats, over: &Cell<u64>, injected: &Cell<u64>) {
+    let mut font_bytes = t.font.clone();
+    let mut statuses: Option<HashMap<String, UriStatus>> = None;
+    for round in 0..3 {
+        let font = match FontRef::new(&font_bytes) {
+            Ok(f) => f,
+            Err(_) => {
+                st.count("ift_font_open_failed", 1);
+                return;
+            }
+        };
+        st.opened = true;
+        let g = PatchGroup::select_next_patches(font, &t.def);
+        st.res("ift_select_errors", &g);
+        let Ok(g) = g else { return };
+        let has = g.has_uris();
+        let uris: Vec<String> = g.uris().map(|s| s.to_string()).collect();
+        st.calls += 2;
+        st.ok += 2;
+        st.count("ift_uris_listed", uris.len() as u64);
+        if has != !uris.is_empty() {
+            st.count("ift_has_uris_disagrees_with_uris(C19)", 1);
+        }
+        let br = decoder == 1 || decoder == 100;
+        // what each URI's entry expects (encoding, compatibility id)
+        let mut wants: HashMap<String, (Want, [u8; 16])> = HashMap::new();
+        if let Ok(f2) = FontRef::new(&font_bytes) {
+            if let Ok(v) = intersecting_patches(&f2, &t.def) {
+                for pu in v.iter().take(500) {
+                    if let Ok(us) = pu.uri_string() {
+                        let w = match pu.encoding() {
+                            PatchFormat::GlyphKeyed => Want::GlyphKeyed,
+                            PatchFormat::TableKeyed { .. } => Want::TableKeyed,
+                        };
+                        let mut c = [0u8; 16];
+                        c.copy_from_slice(pu.expected_compatibility_id().as_slice());
+                        wants.insert(us, (w, c));
+                    }
+                }
+            }
+        }
+        let mut pm = match statuses.take() {
+            Some(mut m) => {
+                for (k, v) in patch_map(t, &uris, &wants, br, salt + round, st) {
+                    m.entry(k).or_insert(v);
+                }
+                m
+            }
+            None => patch_map(t, &uris, &wants, br, salt, st),
+        };
+        let calls = Cell::new(0u64);
+        let mut decoder = decoder;
+        if decoder == 100 && !pm.values().all(|s| match s {
+            UriStatus::Pending(p) => lengths_sane(p),
+            _ => true,
+        }) {
+            // an advertised length above 16 MiB: go through the capping wrapper instead
+            st.count("ift_default_api_rerouted_to_capped_decoder", 1);
+            decoder = 1;
+        }
+        let r = match decoder {
+            0 => g.apply_next_patches_with_decoder(&mut pm, &NoopBrotliDecoder),
+            1 => g.apply_next_patches_with_decoder(&mut pm, &Capped { over, calls: &calls }),
+            100 => g.apply_next_patches(&mut pm),
+            m => {
+                let f = Faulty { mode: (m - 2) % N_FAULT_MODES, fail_on: (salt % 3), calls: &calls, injected, junk: t.font.iter().take(300).copied().collect() };
+                g.apply_next_patches_with_decoder(&mut pm, &f)
+            }
+        };
+        st.res("ift_apply_errors", &r);
+        st.count("ift_decoder_calls", calls.get());
+        match r {
+            Ok(new_font) => {
+                st.count("ift_apply_ok", 1);
+                st.count(
+                    match decoder {
+                        0 => "ift_apply_ok:passthrough",
+                        1 | 100 => "ift_apply_ok:c-brotli",
+                        _ => "ift_apply_ok:fault-injected",
+                    },
+                    1,
+                );
+                font_bytes = new_font;
+                statuses = Some(pm);
+            }
+            Err(_) => return,
+        }
+    }
+}
+
+/// true if every max_uncompressed_length advertised in the patch is <= 16 MiB
+/// (so that the default decoder can be used directly). Conservative: any
+/// big-endian u32 above the cap anywhere in a table-keyed patch's headers, or an
+/// unparsable patch with such a word in its first 64 bytes, counts as not sane.
+fn lengths_sane(p: &[u8]) -> bool {
+    use read_fonts::tables::ift::{GlyphKeyedPatch, TableKeyedPatch};
+    use read_fonts::{FontData, FontRead};
+    if p.starts_with(b"ifgk") {
+        if let Ok(g) = GlyphKeyedPatch::read(FontData::new(p)) {
+            return g.max_uncompressed_length() as usize <= MAX_DECODE;
+        }
+        return true; // cannot be parsed by the library either: no decode happens
+    }
+    if let Ok(tk) = TableKeyedPatch::read(FontData::new(p)) {
+        let n = tk.patches_count() as usize;
+        if n > 64 {
+            return false;
+        }
+        for i in 0..n {
+            match tk.patch_offsets().get(i).map(|o| o.get().to_u32() as usize) {
+                Some(off) => {
+                    if let Some(b) = p.get(off + 5..off + 9) {
+                        if u32::from_be_bytes([b[0], b[1], b[2], b[3]]) as usize > MAX_DECODE {
+                            return false;
+                        }
+                    }
+                }
+                None => break,
+            }
+        }
+    }
+    true
+}
+
+pub fn run_item(ctx: &mut Ctx, i: usize, seed: u64) {
+    let t = gen_tuple(i, seed);
+    ctx.count("ift_tuples", 1);
+    let case_json = json!({"ift_item": i, "ift_seed": seed.to_string(), "shape": t.shape});
+    let over = Cell::new(0u64);
+    let injected = Cell::new(0u64);
+    let mut rng = Rng::derive(seed, "ift-run", i as u64);
+    // which decoders for this tuple
+    let mut decs: Vec<u8> = vec![0, 1, 2 + rng.below(N_FAULT_MODES as u64) as u8];
+    if rng.chance(1, 3) {
+        decs.push(2 + rng.below(N_FAULT_MODES as u64) as u8);
+    }
+    let mut answered = false;
+    let mut opened = false;
+    // case A: intersection + uri expansion
+    {
+        ctx.eval();
+        let st = RefCell::new(IStats::default());
+        let label = || format!("ift#{}|{}|intersect|{}|0|0|", i, seed, seed);
+        let r = ctx.run_case(&label, Some(&t.font), &|| {
+            let mut s = st.borrow_mut();
+            let Ok(font) = FontRef::new(&t.font) else { return };
+            s.opened = true;
+            let mut defs = vec![t.def.clone(), SubsetDefinition::all(), SubsetDefinition::default()];
+            let mut u = t.def.clone();
+            u.union(&SubsetDefinition::codepoints([5u32, 6, 7].into_iter().collect()));
+            defs.push(u);
+            for d in &defs {
+                let r = intersecting_patches(&font, d);
+                s.res("ift_intersect_errors", &r);
+                if let Ok(v) = r {
+                    s.count("ift_patch_uris", v.len() as u64);
+                    for pu in v.iter().take(2000) {
+                        let us = pu.uri_string();
+                        s.res("ift_uri_template_errors", &us);
+                        if us.is_ok() {
+                            s.count("ift_uri_templates_expanded", 1);
+                        }
+                        let _ = (pu.encoding(), pu.expected_compatibility_id());
+                    }
+                }
+            }
+        });
+        let s = st.into_inner();
+        if let Err(p) = &r {
+            ctx.count(&format!("panics_at:{}:{}:{}", p.file, p.line, p.class.as_str()), 1);
+            ctx.judge_panic(p, "IFT intersecting_patches / uri expansion", case_json.clone(), Some(&t.font));
+        }
+        opened |= s.opened;
+        answered |= s.ok + s.err > 0;
+        absorb(ctx, &s);
+    }
+    decs.push(100);
+    for d in decs {
+        ctx.eval();
+        let st = RefCell::new(IStats::default());
+        let label = || format!("ift#{}|{}|apply:{}|{}|0|0|", i, seed, d, seed);
+        let salt = rng.u64() % 1000;
+        let r = ctx.run_case(&label, Some(&t.font), &|| {
+            let mut s = st.borrow_mut();
+            run_apply(&t, d, salt, &mut s, &over, &injected);
+        });
+        let s = st.into_inner();
+        if let Err(p) = &r {
+            ctx.count(&format!("panics_at:{}:{}:{}", p.file, p.line, p.class.as_str()), 1);
+            let mut cj = case_json.clone();
+            cj["decoder"] = json!(d);
+            ctx.judge_panic(p, "IFT select_next_patches / apply_next_patches", cj, Some(&t.font));
+        }
+        opened |= s.opened;
+        answered |= s.ok + s.err > 0;
+        ctx.count(
+            match d {
+                0 => "ift_cases:passthrough-decoder",
+                1 => "ift_cases:c-brotli-capped",
+                100 => "ift_cases:c-brotli-default-api",
+                _ => "ift_cases:fault-injecting-decoder",
+            },
+            1,
+        );
+        absorb(ctx, &s);
+    }
+    ctx.count("ift_decode_requests_over_16MiB_not_executed", over.get());
+    ctx.count("ift_decoder_faults_injected", injected.get());
+    if opened && answered {
+        let mut dg = Digest::new();
+        dg.u64(fnv64(&t.font));
+        dg.str(&t.shape);
+        dg.u64(t.patch_seed);
+        ctx.nontrivial(dg.finish());
+        ctx.distinct("ift_tuple_digests", dg.finish());
+    }
+    ctx.sample_by_kind("ift-tuple", json!({"item": i, "shape": t.shape, "font_len": t.font.len(), "patch_seed": t.patch_seed.to_string()}));
+}
+
+fn absorb(ctx: &mut Ctx, s: &IStats) {
+    ctx.evals(s.calls);
+    ctx.count("library_calls", s.calls);
+    ctx.count("results_ok_or_some", s.ok);
+    ctx.count("results_err_or_none", s.err);
+    for (k, n) in &s.counts {
+        ctx.count(k, *n);
+    }
+    for (k, v) in &s.labels {
+        ctx.label(k, v);
+    }
+}
+
+/// Self-check of the stored-brotli encoder against the real decoder (harness
+/// sanity, reported as inconclusive if it fails).
+fn encoder_selfcheck(ctx: &mut Ctx) {
+    for data in [&b""[..], b"a", b"hello hello hello", &vec![7u8; 70_000][..]] {
+        let enc = brotli_stored(data);
+        let r = vf_core::guard(|| BuiltInBrotliDecoder.decode(&enc, None, data.len()));
+        match r {
+            Ok(Ok(d)) if d == data => ctx.count("ift_encoder_selfcheck_ok", 1),
+            other => ctx.inconclusive(format!("stored-brotli encoder self-check failed: {:?}", other.map(|r| r.map(|v| v.len())).map_err(|p| p.msg))),
+        }
+    }
+}
+
+pub fn sec_ift(ctx: &mut Ctx, items: &mut Items) {
+    if ctx.shard.0 == 0 {
+        encoder_selfcheck(ctx);
+    }
+    let n = ctx.budget(28_000, 224_000);
+    let seed = ctx.seed;
+    for i in 0..n {
+        if !items.mine(ctx) {
+            continue;
+        }
+        run_item(ctx, i, seed);
+    }
+}
